@@ -353,4 +353,14 @@ def unwind (g : Cfg) (cie : List Instr) (cieTail : Out Unit) (fde : List Instr) 
   let r := runTable g initial lastEnd fde fdeTail c2
   (r.1, r.2.map (fun _ => ()))
 
+/-- the whole pipeline on instruction *bytes*: both streams are decoded by
+`CallFrameInstructionIter` (`decodeAll`; `ciePos`/`fdePos` are their offsets in the section) and
+unwound; decoding errors surface where `next_row` reaches them.  This is the function the
+driver's `cfi-unwind` op executes. -/
+def unwindBytes (g : Cfg) (cieCfg fdeCfg : DecodeCfg) (ciePos fdePos : Nat) (cieBytes fdeBytes : Bytes)
+    (initial len : Nat) : Run Unit :=
+  let c := decodeAll cieCfg ciePos cieBytes
+  let f := decodeAll fdeCfg fdePos fdeBytes
+  unwind g c.1 c.2 f.1 f.2 initial len
+
 end Gimli.Unwind
